@@ -454,6 +454,127 @@ func checkProfile(r *ev.Run, n int) {
 	}
 }
 
+
+// ---- feature points of segment-based shapes on a lattice of end points ----
+//
+// Capsules (2D and 3D), cylinders and cones are queried exactly at their defining points (end points, their
+// midpoint, points beyond the ends on the axis) for every pair of lattice end points at several scales: the
+// place where an axial projection rounds to either side of the end plane. Oracle: closed-form distance,
+// nearest point on the surface at that distance, unit normal.
+type featCase struct {
+	Kind  string    `json:"kind"`
+	Shape string    `json:"shape"`
+	P1    []float64 `json:"p1"`
+	P2    []float64 `json:"p2"`
+	R     float64   `json:"r"`
+	T     float64   `json:"t"`
+}
+
+func checkFeature(r *ev.Run, c featCase) {
+	viol := func(kind, msg string) {
+		r.Violation("feature/"+c.Shape+"/"+kind, fmt.Sprintf("%s P1=%v P2=%v r=%g, query P1+%g(P2-P1): %s", c.Shape, c.P1, c.P2, c.R, c.T, msg), c)
+	}
+	r.Eval(1)
+	if len(c.P1) == 2 {
+		p1, p2 := model2d.XY(c.P1[0], c.P1[1]), model2d.XY(c.P2[0], c.P2[1])
+		q := p1.Add(p2.Sub(p1).Scale(c.T))
+		obj := &model2d.Capsule{P1: p1, P2: p2, Radius: c.R}
+		want := c.R - ref.SegDist2(q.X, q.Y, p1.X, p1.Y, p2.X, p2.Y)
+		tol := 1e-9 * (1 + p1.Norm() + p2.Norm())
+		if got := obj.SDF(q); math.Abs(got-want) > tol {
+			viol("SDF", fmt.Sprintf("SDF=%.12g, reference %.12g", got, want))
+		}
+		pt, d := obj.PointSDF(q)
+		onSurf := c.R - ref.SegDist2(pt.X, pt.Y, p1.X, p1.Y, p2.X, p2.Y)
+		if math.Abs(d-want) > tol || math.Abs(onSurf) > 1e-7 || math.Abs(pt.Dist(q)-math.Abs(want)) > 1e-7 {
+			viol("PointSDF", fmt.Sprintf("nearest point %v is %g from the surface and %g from the query; the surface is %g away", pt, onSurf, pt.Dist(q), math.Abs(want)))
+		}
+		n, d2 := obj.NormalSDF(q)
+		if math.Abs(d2-want) > tol || !(math.Abs(n.Norm()-1) < 1e-6) {
+			viol("NormalSDF", fmt.Sprintf("normal %v (length %g), distance %g, reference %g", n, n.Norm(), d2, want))
+		}
+		r.NontrivialAdd(1)
+		return
+	}
+	p1, p2 := model3d.XYZ(c.P1[0], c.P1[1], c.P1[2]), model3d.XYZ(c.P2[0], c.P2[1], c.P2[2])
+	q := p1.Add(p2.Sub(p1).Scale(c.T))
+	var sh ref.Shape3
+	switch c.Shape {
+	case "Capsule":
+		sh = ref.Capsule(p1, p2, c.R)
+	case "Cylinder":
+		sh = ref.Cylinder(p1, p2, c.R)
+	default:
+		sh = ref.Cone(p1, p2, c.R)
+	}
+	obj := sh.Obj.(sdfObj)
+	want := sh.SDF(q)
+	tol := 1e-9 * (1 + p1.Norm() + p2.Norm())
+	if got := obj.SDF(q); !(math.Abs(got-want) <= tol) {
+		viol("SDF", fmt.Sprintf("SDF=%.12g, reference %.12g", got, want))
+	}
+	pt, d := obj.PointSDF(q)
+	if !(math.Abs(d-want) <= tol) || !(math.Abs(sh.SDF(pt)) <= 1e-7) || !(math.Abs(pt.Dist(q)-math.Abs(want)) <= 1e-7) {
+		viol("PointSDF", fmt.Sprintf("nearest point %v is %g from the surface and %g from the query; the surface is %g away", pt, sh.SDF(pt), pt.Dist(q), math.Abs(want)))
+	}
+	n, d2 := obj.NormalSDF(q)
+	if !(math.Abs(d2-want) <= tol) || !(math.Abs(n.Norm()-1) < 1e-6) {
+		viol("NormalSDF", fmt.Sprintf("normal %v (length %g), distance %g, reference %g", n, n.Norm(), d2, want))
+	}
+	r.NontrivialAdd(1)
+}
+
+func featureStage(r *ev.Run, th bool) {
+	var cases []featCase
+	ts := []float64{0, 1, 0.5, -0.25, 1.25}
+	scales := []float64{1, 0.1, 0.3}
+	if th {
+		scales = append(scales, 1.7, 0.7, 1e-3)
+	}
+	rng := 3
+	if th {
+		rng = 4
+	}
+	for x1 := -rng; x1 <= rng; x1++ {
+		for y1 := -rng; y1 <= rng; y1++ {
+			for x2 := -rng; x2 <= rng; x2++ {
+				for y2 := -rng; y2 <= rng; y2++ {
+					if x1 == x2 && y1 == y2 {
+						continue
+					}
+					for _, s := range scales {
+						for _, t := range ts {
+							cases = append(cases, featCase{"feature", "Capsule2D", []float64{float64(x1) * s, float64(y1) * s}, []float64{float64(x2) * s, float64(y2) * s}, 0.5 * s, t})
+						}
+					}
+				}
+			}
+		}
+	}
+	// 3D: first end point on a coarser lattice, second over the full one
+	for _, a := range [][3]int{{0, 0, 0}, {1, -2, 3}, {-3, 1, 2}} {
+		for x2 := -rng; x2 <= rng; x2++ {
+			for y2 := -rng; y2 <= rng; y2++ {
+				for z2 := -rng; z2 <= rng; z2++ {
+					if x2 == a[0] && y2 == a[1] && z2 == a[2] {
+						continue
+					}
+					for _, s := range scales {
+						for _, t := range ts {
+							for _, shape := range []string{"Capsule", "Cylinder", "Cone"} {
+								cases = append(cases, featCase{"feature", shape, []float64{float64(a[0]) * s, float64(a[1]) * s, float64(a[2]) * s},
+									[]float64{float64(x2) * s, float64(y2) * s, float64(z2) * s}, 0.5 * s, t})
+							}
+						}
+					}
+				}
+			}
+		}
+	}
+	ev.Parallel(len(cases), 16, func(i int) { checkFeature(r, cases[i]) })
+	r.Set("feature_point_cases", len(cases))
+}
+
 func main() {
 	r := ev.Start("C06", "exploration")
 	th := r.Thorough()
@@ -462,6 +583,13 @@ func main() {
 		n = 21
 	}
 	if r.Replay != "" {
+		var fc featCase
+		r.LoadReplay(&fc)
+		if fc.Kind == "feature" {
+			checkFeature(r, fc)
+			r.Sample(fc)
+			r.Finish()
+		}
 		var c sdfCase
 		r.LoadReplay(&c)
 		for _, s := range ref.Shapes3(true) {
@@ -508,5 +636,6 @@ func main() {
 		ev.Parallel(len(m2), 16, func(i int) { checkMeshSDF2(r, m2[i], 3*n) })
 	})
 	r.Isolate("profile", func() { checkProfile(r, n-2) })
+	r.Isolate("feature-points", func() { featureStage(r, th) })
 	r.Finish()
 }
